@@ -4,6 +4,7 @@ package main
 
 import (
 	"fmt"
+	"sort"
 	"go/constant"
 	"go/types"
 	"math/big"
@@ -348,14 +349,19 @@ func (env *SpecEnv) fieldOf(base Value, idx int) Value {
 		st := pt.Elem().Underlying().(*types.Struct)
 		ft := st.Field(idx).Type()
 		if _, isStruct := ft.Underlying().(*types.Struct); isStruct {
-			return Value{term: e.fieldRef(env.cur, pt.Elem(), idx, base.term), typ: types.NewPointer(ft)}
+			return Value{term: e.fieldRef(env.cur, pt.Elem(), idx, base.term), typ: types.NewPointer(ft), embedded: true}
 		}
 		if base.addr != nil {
 			a := *base.addr
 			a.path = append(append([]pathStep{}, a.path...), pathStep{ss: e.u.structSortOf(pt.Elem()), field: idx})
 			return Value{term: e.loadAddr(env.cur, &a), typ: ft}
 		}
-		return Value{term: sel(env.cur.get(e.fieldKey(pt.Elem(), idx)), base.term), typ: ft}
+		key := e.fieldKey(pt.Elem(), idx)
+		t := sel(env.cur.get(key), base.term)
+		if e.v.sliceNormKeys[key] {
+			e.q.markOff0(t)
+		}
+		return Value{term: t, typ: ft}
 	}
 	st, ok := base.typ.Underlying().(*types.Struct)
 	if !ok {
@@ -373,12 +379,15 @@ func (env *SpecEnv) evalIndex(x *Expr) Value {
 	case *types.Map:
 		dom, val, _ := e.mapKeys(a.typ)
 		i = env.coerce(i, t.Key())
-		d := sel(sel(env.cur.get(dom), a.term), i.term)
+		// In contract expressions m[k] is the stored value; it is meaningful
+		// only where k in m holds (no zero-value default), which keeps
+		// quantified invariants free of if-then-else terms.
+		_ = dom
 		v := sel(sel(env.cur.get(val), a.term), i.term)
-		return Value{term: ite(and("(not (= "+a.term+" 0))", d), v, e.u.zero(t.Elem())), typ: t.Elem()}
+		return Value{term: v, typ: t.Elem()}
 	case *types.Slice:
 		ek := e.elemKey(t.Elem())
-		return Value{term: sel(sel(env.cur.get(ek), "(s_arr "+a.term+")"), "(+ (s_off "+a.term+") "+i.term+")"), typ: t.Elem()}
+		return Value{term: sel(sel(env.cur.get(ek), "(s_arr "+a.term+")"), e.q.idxOf(a.term, i.term)), typ: t.Elem()}
 	case *types.Basic:
 		if t.Info()&types.IsString != 0 {
 			return Value{term: "(str.to_code (str.at " + a.term + " " + i.term + "))", typ: mathInt}
@@ -402,10 +411,24 @@ func (env *SpecEnv) coerce(v Value, want types.Type) Value {
 	if v.term == "NIL" {
 		return Value{term: env.e.u.zero(want), typ: want}
 	}
+	if v.embedded {
+		if _, isStruct := want.Underlying().(*types.Struct); isStruct {
+			return env.valueOfEmbedded(v)
+		}
+	}
+	return v
+}
+
+// valueOfEmbedded loads the struct value an embedded-field reference designates.
+func (env *SpecEnv) valueOfEmbedded(v Value) Value {
+	if v.embedded {
+		return env.derefIn(env.cur, Value{term: v.term, typ: v.typ})
+	}
 	return v
 }
 
 func (env *SpecEnv) unify(a, b Value) (Value, Value) {
+	a, b = env.valueOfEmbedded(a), env.valueOfEmbedded(b)
 	if a.term == "NIL" && b.term == "NIL" {
 		env.errorf("nil compared with nil")
 	}
@@ -474,7 +497,7 @@ func (env *SpecEnv) evalBinary(x *Expr) Value {
 			ek := env.e.elemKey(t.Elem())
 			k = env.coerce(k, t.Elem())
 			iv := env.e.q.freshBound("i")
-			body := fmt.Sprintf("(exists ((%[1]s Int)) (and (<= 0 %[1]s) (< %[1]s (s_len %[2]s)) (= (select (select %[3]s (s_arr %[2]s)) (+ (s_off %[2]s) %[1]s)) %[4]s)))", iv, m.term, env.cur.get(ek), k.term)
+			body := fmt.Sprintf("(exists ((%[1]s Int)) (and (<= 0 %[1]s) (< %[1]s (s_len %[2]s)) (= (select (select %[3]s (s_arr %[2]s)) %[5]s) %[4]s)))", iv, m.term, env.cur.get(ek), k.term, env.e.q.idxOf(m.term, iv))
 			return Value{term: body, typ: boolT}
 		}
 		env.errorf("'in' needs a map, set or slice, got %s", m.typ)
@@ -603,6 +626,11 @@ func (env *SpecEnv) evalCall(x *Expr) Value {
 			return Value{term: fmt.Sprint(a.typ.Underlying().(*types.Array).Len()), typ: mathInt}
 		}
 		env.errorf("len of %s", a.typ)
+	case "backing":
+		// backing(s): identity of the slice's backing array
+		argc(1)
+		a := env.eval(x.Args[0])
+		return Value{term: "(s_arr " + a.term + ")", typ: mathInt}
 	case "cap":
 		argc(1)
 		a := env.eval(x.Args[0])
@@ -626,6 +654,9 @@ func (env *SpecEnv) evalCall(x *Expr) Value {
 			env.errorf("fresh() needs an old state")
 		}
 		return Value{term: "(and (<= " + env.old.ap + " " + a.term + ") (< " + a.term + " " + env.cur.ap + "))", typ: boolT}
+	case "allocLimit":
+		argc(0)
+		return Value{term: env.cur.ap, typ: mathInt}
 	case "allocated":
 		argc(1)
 		a := env.eval(x.Args[0])
@@ -756,6 +787,18 @@ func (env *SpecEnv) evalCall(x *Expr) Value {
 	if sf, ok := e.v.db.Specs[x.Name]; ok {
 		return env.callSpec(sf, x)
 	}
+	// struct construction T(f0, f1, ...)
+	if t, ok := env.tryType(x.Name); ok {
+		if st, isStruct := t.Underlying().(*types.Struct); isStruct && len(x.Args) == st.NumFields() && st.NumFields() > 0 {
+			ss := e.u.structSortOf(t)
+			args := make([]string, len(x.Args))
+			for i, a := range x.Args {
+				v := env.coerce(env.eval(a), st.Field(i).Type())
+				args[i] = v.term
+			}
+			return Value{term: app("mk_"+ss.name, args...), typ: t}
+		}
+	}
 	// conversion T(x)
 	if t, ok := env.tryType(x.Name); ok && len(x.Args) == 1 {
 		a := env.eval(x.Args[0])
@@ -785,6 +828,9 @@ func (env *SpecEnv) callSpec(sf *SpecFunc, x *Expr) Value {
 	if p := e.v.pkgByPath[sf.Pkg]; p != nil {
 		senv.pkg = p
 	}
+	if sf.Opaque {
+		return env.callOpaque(sf, &senv, args)
+	}
 	if sf.Macro {
 		scope := map[string]Value{}
 		for i, p := range sf.Params {
@@ -807,4 +853,73 @@ func (env *SpecEnv) callSpec(sf *SpecFunc, x *Expr) Value {
 	}
 	rt := senv.resolveType(sf.Result)
 	return Value{term: app("spec_"+sf.Name, terms...), typ: rt}
+}
+
+type opaqueDef struct {
+	keys []string
+	name string
+}
+
+// callOpaque: the predicate is an uninterpreted symbol over the heap arrays
+// its body reads plus its parameters; one triggered axiom defines it.
+func (env *SpecEnv) callOpaque(sf *SpecFunc, senv *SpecEnv, args []Value) Value {
+	e := env.e
+	def, ok := e.v.opaqueDefs[sf.Name]
+	if !ok {
+		probe := &State{q: e.q, reach: "true", heap: map[string]string{}, ghost: map[string]string{}, deferFlags: map[int]string{}, probe: map[string]bool{}, ap: "AP_UNAVAILABLE"}
+		scope := map[string]Value{}
+		var formals []string
+		var fsorts []string
+		for _, p := range sf.Params {
+			t := senv.resolveType(p.Type)
+			name := "p_" + sanitize(p.Name)
+			scope[p.Name] = Value{term: name, typ: t}
+			formals = append(formals, name)
+			fsorts = append(fsorts, e.u.sortOf(t))
+		}
+		n := *senv
+		n.vars = scope
+		n.bound = nil
+		n.cur = probe
+		n.old = nil
+		n.depth = env.depth + 1
+		n.where = "opaque pred " + sf.Name
+		body := n.evalBool(sf.Body)
+		if strings.Contains(body, "AP_UNAVAILABLE") {
+			env.errorf("opaque predicate %s must not use allocated()/fresh()", sf.Name)
+		}
+		var keys []string
+		for k := range probe.probe {
+			keys = append(keys, k)
+		}
+		sort.Strings(keys)
+		def = &opaqueDef{keys: keys, name: "op_" + sf.Name}
+		var binders, bsorts, actuals []string
+		for _, k := range keys {
+			so, _ := e.q.keySort(k)
+			binders = append(binders, "(H_"+sanitize(k)+" "+so+")")
+			bsorts = append(bsorts, so)
+			actuals = append(actuals, "H_"+sanitize(k))
+		}
+		for i, f := range formals {
+			binders = append(binders, "("+f+" "+fsorts[i]+")")
+			bsorts = append(bsorts, fsorts[i])
+			actuals = append(actuals, f)
+		}
+		appT := app(def.name, actuals...)
+		e.v.specDefs = append(e.v.specDefs,
+			fmt.Sprintf("(declare-fun %s (%s) Bool)", def.name, strings.Join(bsorts, " ")),
+			fmt.Sprintf("(assert (forall (%s) (! (= %s %s) :pattern (%s))))", strings.Join(binders, " "), appT, body, appT))
+		e.v.opaqueDefs[sf.Name] = def
+	}
+	var actuals []string
+	for _, k := range def.keys {
+		e.q.keySort(k)
+		actuals = append(actuals, env.cur.get(k))
+	}
+	for i, a := range args {
+		t := senv.resolveType(sf.Params[i].Type)
+		actuals = append(actuals, env.coerce(a, t).term)
+	}
+	return Value{term: app(def.name, actuals...), typ: types.Typ[types.Bool]}
 }
